@@ -88,6 +88,17 @@ unsafe impl OpCode for CloseSocket {
     fn call_blocking(&mut self, _: &mut Self::Control) -> io::Result<usize> {
         self.call()
     }
+
+    unsafe fn set_result(&mut self, _: &mut Self::Control, res: &io::Result<usize>, _: &Extra) {
+        if let Err(e) = res
+            && e.raw_os_error() == Some(libc::ECANCELED)
+        {
+            // The kernel cancelled the request before running it: the fd is still
+            // open and nobody else owns it.
+            // SAFETY: the fd has not been closed, and it is dropped only here.
+            unsafe { ManuallyDrop::drop(&mut self.fd) };
+        }
+    }
 }
 
 unsafe impl<S: AsFd> OpCode for Accept<S> {
